@@ -233,6 +233,98 @@ func C16(p *core.Prog, r *core.Report) {
 			r.Bad("LAYOUT-ARITH", "seqio.fromOriginLength", p.Pos(fns["fromOriginLength"].fd.Pos()), bad+": Len() and Bytes() disagree with what was written")
 		}
 	}
+	// GUARD-MIN: (*Origin).Bytes treats a block as empty exactly when it is shorter than the smallest non-empty block (W+3 bytes)
+	r.Rule("GUARD-MIN", "(*Origin).Bytes returns no residues exactly for blocks shorter than the smallest non-empty block, W+3 bytes (index, space, one residue, newline)", 1)
+	if ob := fns["Origin.Bytes"]; ob != nil {
+		info := p.Info(core.PkgSeqio)
+		found := false
+		ast.Inspect(ob.fd.Body, func(n ast.Node) bool {
+			is, ok := n.(*ast.IfStmt)
+			if !ok || found {
+				return true
+			}
+			be, ok := ast.Unparen(is.Cond).(*ast.BinaryExpr)
+			if !ok {
+				return true
+			}
+			lc, isLen := ast.Unparen(be.X).(*ast.CallExpr)
+			k, isConst := core.ConstInt(info, be.Y)
+			if !isLen || !core.IsBuiltin(info, lc, "len") || !isConst || len(is.Body.List) != 1 {
+				return true
+			}
+			rs, isRet := is.Body.List[0].(*ast.ReturnStmt)
+			if !isRet || len(rs.Results) != 1 || !core.IsNil(info, rs.Results[0]) {
+				return true
+			}
+			found = true
+			okGuard := (be.Op == token.LSS && k == W+3) || (be.Op == token.LEQ && k == W+2)
+			if okGuard {
+				r.Ok("GUARD-MIN", "seqio.Origin.Bytes", p.Pos(is.Pos()), fmt.Sprintf("empty exactly below %d bytes", W+3))
+			} else {
+				r.Bad("GUARD-MIN", "seqio.Origin.Bytes", p.Pos(is.Pos()), fmt.Sprintf("the emptiness guard `%s` does not coincide with 'shorter than the smallest non-empty block (%d bytes)': a sequence of exactly one residue decodes to nothing (or a shorter, malformed block is indexed)", types.ExprString(is.Cond), W+3))
+			}
+			return true
+		})
+		if !found {
+			r.Und("GUARD-MIN", "seqio.Origin.Bytes", p.Pos(ob.fd.Pos()), "no `len(buffer) < k { return nil }` guard found")
+		}
+	}
+	// SEPARATORS: the bytes the validators compare positions against are exactly the bytes the writer stores
+	r.Rule("SEPARATORS", "the fast validator compares block positions against exactly the separator bytes NewOrigin stores (space and newline); the line-wise validator against the space only (lines are split by the scanner)", 2)
+	{
+		info := p.Info(core.PkgSeqio)
+		byteConsts := func(fd *ast.FuncDecl, stores bool) map[int64]bool {
+			out := map[int64]bool{}
+			ast.Inspect(fd.Body, func(n ast.Node) bool {
+				if stores {
+					if as, ok := n.(*ast.AssignStmt); ok && len(as.Lhs) == 1 && len(as.Rhs) == 1 {
+						if _, isIdx := ast.Unparen(as.Lhs[0]).(*ast.IndexExpr); isIdx {
+							if v, ok := core.ConstInt(info, as.Rhs[0]); ok {
+								out[v] = true
+							}
+						}
+					}
+					return true
+				}
+				if be, ok := n.(*ast.BinaryExpr); ok && (be.Op == token.NEQ || be.Op == token.EQL) {
+					_, lIdx := ast.Unparen(be.X).(*ast.IndexExpr)
+					lid := core.ObjOf(info, be.X)
+					if v, ok := core.ConstInt(info, be.Y); ok && (lIdx || (lid != nil && isByte(lid.Type()))) {
+						out[v] = true
+					}
+				}
+				return true
+			})
+			return out
+		}
+		written := byteConsts(fns["NewOrigin"].fd, true)
+		show := func(m map[int64]bool) string {
+			var ks []int64
+			for k := range m {
+				ks = append(ks, k)
+			}
+			sort.Slice(ks, func(i, j int) bool { return ks[i] < ks[j] })
+			return fmt.Sprint(ks)
+		}
+		fast := byteConsts(fns["validateOrigin"].fd, false)
+		if show(fast) == show(written) {
+			r.Ok("SEPARATORS", "seqio.validateOrigin", p.Pos(fns["validateOrigin"].fd.Pos()), "compares against the bytes the writer stores: "+show(written))
+		} else {
+			r.Bad("SEPARATORS", "seqio.validateOrigin", p.Pos(fns["validateOrigin"].fd.Pos()), fmt.Sprintf("the fast validator compares positions against bytes %s but the writer stores %s: it accepts (or rejects) blocks the writer never produces, e.g. CRLF line ends, and fast and slow path disagree", show(fast), show(written)))
+		}
+		slow := byteConsts(fns["slowGenBankOriginParser"].fd, false)
+		wantSlow := map[int64]bool{}
+		for k := range written {
+			if k != 10 {
+				wantSlow[k] = true
+			}
+		}
+		if show(slow) == show(wantSlow) {
+			r.Ok("SEPARATORS", "seqio.slowGenBankOriginParser", p.Pos(fns["slowGenBankOriginParser"].fd.Pos()), "compares against the writer's in-line separators: "+show(wantSlow))
+		} else {
+			r.Bad("SEPARATORS", "seqio.slowGenBankOriginParser", p.Pos(fns["slowGenBankOriginParser"].fd.Pos()), fmt.Sprintf("the line-wise validator compares against %s, the writer's in-line separators are %s", show(slow), show(wantSlow)))
+		}
+	}
 	// Origin.Len: the length reported without decoding equals the number of residues
 	lenFn := p.FuncDecl(core.PkgSeqio, "Origin.Len")
 	if lenFn == nil {
@@ -305,4 +397,9 @@ func OriginLen(p *core.Prog, r *core.Report) {
 		}
 	}
 	r.Fn("seqio.Origin.Len")
+}
+
+func isByte(t types.Type) bool {
+	b, ok := t.Underlying().(*types.Basic)
+	return ok && (b.Kind() == types.Byte || b.Kind() == types.Uint8)
 }
